@@ -277,6 +277,7 @@ def check_strings(ctx):
         if v is None:
             ctx.obligation(f"model evaluates {key}", False)
             continue
+        v = "".join(v.split())
         pf_model = v.startswith("(true")
         wt = U.parse_wterms(v[v.index(",") + 1:])
         want = U.canon_model(wt, spaces)
@@ -734,7 +735,74 @@ def check_special(ctx):
                                               "mismatch": bad}, True)
 
 
+def perm_parity(src, dst):
+    """parity of the permutation taking the list src (distinct items) to dst"""
+    pos = {x: k for k, x in enumerate(src)}
+    p = [pos[x] for x in dst]
+    inv = sum(1 for a in range(len(p)) for b in range(a + 1, len(p))
+              if p[a] > p[b])
+    return inv & 1
+
+
+def check_no(ctx):
+    """sympy's expansion of NO(...) with occ/virt indices vs. flatten_NO:
+    same operators, quasi-creators first, and signs related by the parity of
+    the permutation inside the classes (C01_same_class_anticommute)"""
+    import re
+    rng = ctx.rng
+    pool = U.index_pool()
+    quick = ctx.tier == "quick"
+    groups = []
+    for n in range(60 if quick else 300):
+        m = rng.choice([2, 2, 3, 4, 4, 5, 6])
+        cand = [c(x) for c in (F, Fd)
+                for x in pool["occ"][:4] + pool["virt"][:4]]
+        groups.append(rng.sample(cand, m))
+    cases, info = [], []
+    for g in groups:
+        idmap, spaces, num = U.number_ops(g)
+        cases.append(f"flatten_out {U.coq_ops(num, spaces)}")
+        info.append((g, idmap, spaces, num))
+    vals, errs = ctx.coq_eval("no", cases, header=COQ_HEADER, shard=100)
+    for (g, idmap, spaces, num), v in zip(info, vals):
+        key = U.ops_key(num, spaces)
+        if v is None:
+            ctx.obligation(f"flatten_NO evaluates {key}", False)
+            continue
+        v = "".join(v.split())   # the pretty printer breaks lines anywhere
+        msign = v.startswith("(true")
+        mops = [(c == "true", int(k)) for c, k in
+                re.findall(r"\((true|false),(\d+)%N\)", v[v.index(","):])]
+        e = NO(Mul(*g)).doit(wicks=True)
+        cpart, ncpart = e.args_cnc()
+        ssign = Mul(*cpart)
+        sops = [(isinstance(o, Fd), idmap[o.args[0]]) for o in ncpart]
+
+        def qcre(o):
+            return spaces[o[1]] == ("virt" if o[0] else "occ")
+        ok = (sorted(sops) == sorted(mops) == sorted(num)
+              and ssign in (1, -1)
+              and all(qcre(sops[k]) or not qcre(sops[k + 1])
+                      for k in range(len(sops) - 1)))
+        if ok:
+            par = perm_parity(mops, sops)
+            ok = (ssign == -1) == (msign != bool(par))
+        nt = any(qcre(num[b]) and not qcre(num[a_])
+                 for a_ in range(len(num)) for b in range(a_ + 1, len(num)))
+        ctx.case(key=("NO", key), nontrivial=nt, kind=f"NO-flatten:len{len(g)}",
+                 sample={"group": str(g), "sympy": str(e)})
+        if not ctx.obligation(f"NO expansion {key}", ok,
+                              f"sympy {ssign} {sops} model {msign} {mops}"):
+            ctx.violation(f"C01:NO-flatten:{key}",
+                          "sympy's expansion of a normal-ordered group is not "
+                          "the signed quasi-creators-first reordering of the "
+                          "model", {"group": str(g), "sympy": str(e),
+                                    "model_negative": msign,
+                                    "model_ops": str(mops)}, False)
+
+
 def run(ctx):
+    check_no(ctx)
     check_table(ctx)
     check_strings(ctx)
     check_wicks(ctx)
